@@ -111,6 +111,25 @@ def run(ck: Check):
                     ex5.one(strategy, {}, None, data, v, atom=atom, load=True, stream="run-keeps-markers", model=False, cap=200)
     from scale import big_frame_and_subdeletion
     big_frame_and_subdeletion(ck, frame=True, sub=False)
+    # marker lines whose line break straddles a multiple of a block size (64 KiB, 1 MiB): the boundaries are still
+    # the ends of the marker LINES
+    from boundaries import block_boundary_loads
+
+    def judge(atom, name, data, line, t, out):
+        ref = reference(data)
+        if ref is None:
+            bad = None if line == "err LithiumError" else f"malformed markers accepted ({line[:60]})"
+        elif t is None:
+            bad = f"well-formed file rejected ({line[:60]})"
+        elif not (t.before.startswith(ref[0]) and t.after.endswith(ref[2]) and len(t.before) + len(t.after) <= len(data)
+                  and (atom in ("jsstr", "char") or (t.before == ref[0] and t.after == ref[2]))):
+            bad = (f"protected prefix ends {t.before[-14:]!r} (the DDBEGIN line ends {ref[0][-14:]!r}), protected suffix starts "
+                   f"{t.after[:14]!r} (the DDEND line starts {ref[2][:14]!r})")
+        else:
+            bad = None
+        if bad:
+            ck.violation(f"[{atom}] {len(data)}-byte file '{name}': {bad}", {"atom": atom, "file": name, "size": len(data)})
+    block_boundary_loads(ck, quick, judge)
     # the same object loading a second file (a library user, a second pass) splits it like a fresh object
     from props.c06 import reload_same_object
     reload_same_object(ck)
